@@ -384,10 +384,11 @@ def gen_C19(r, n):
             exact = True
         else:
             exact = False
-            q = r.choice([r.rng(-40, 40), r.rng(-2**40, 2**40), 0])
-            if k == 2:
-                # a = q*b (+ tiny): quotient at / next to an integer
-                exq = V(*b) * q
+            q = r.choice([r.rng(-40, 40), r.rng(-2**40, 2**40), 0, ((1 << r.rng(1, 88)) + r.rng(-3, 3)) * r.choice([1, -1]),
+                          ((1 << r.rng(50, 56)) + r.rng(-3, 3)) * r.choice([1, -1])])
+            if k in (2, 3):
+                # a = q*b (+ tiny): quotient at / next to an integer; k == 3: integer part q with a generic fractional part
+                exq = V(*b) * (q if k == 2 else q + Fr(r.rng(1, 2**20 - 1), 2**20) * (1 if q >= 0 else -1))
                 hh = fp.rn(exq); ll = fp.rn(exq - Fr(hh))
                 a = (hh, ll) if fp.is_valid(hh, ll) and fp.isfin(hh) else tf_in(r, -400, 400)
                 if r.below(2) and a[1] != 0:
@@ -1763,7 +1764,7 @@ def gen_C16(r, n):
             d = Fr(r.rng(-2**20, 2**20), 2 ** (20 + r.rng(1, 80)))
             add(tf_of_fr(q + d))
         elif k < 5:
-            add(log_uniform_tf(r, -300, 0))     # log-uniform towards 0
+            add(log_uniform_tf(r, -60, 0) if r.below(3) else log_uniform_tf(r, -300, 0))     # log-uniform towards 0
         elif k < 7:
             q = Fr(r.rng(-2**40, 2**40), 2**20)
             add(tf_of_fr(q))
@@ -2022,6 +2023,13 @@ def gen_C20(r, n):
         c.add('de_seq 2 %s' % w2(t), kind='de', t=t, form='seq', want='ok')
         c.add('de_map 2 hi %s lo %s' % (hx(t[0]), hx(t[1])), kind='de', t=t, form='map', want='ok')
         c.add('de_map 2 lo %s hi %s' % (hx(t[1]), hx(t[0])), kind='de', t=t, form='map', want='ok')
+    for h in SPECIAL_WORDS:
+        for l in SPECIAL_WORDS:
+            p = (h, l)
+            want = 'ok' if (fp.isfin(h) and h + l == h) else 'err'
+            c.add('de_seq 2 %s' % w2(p), kind='de', t=p, want=want)
+            c.add('de_map 2 hi %s lo %s' % (hx(h), hx(l)), kind='de', t=p, want=want)
+            c.add('de_map 2 lo %s hi %s' % (hx(l), hx(h)), kind='de', t=p, want=want)
     for _ in range(n):
         # arbitrary word pairs, overlapping or not, to the deserializer
         p = fp.any_tf(r) if r.below(2) else (fp.any_f64(r), fp.any_f64(r))
